@@ -40,10 +40,6 @@ def job_spell(item):
                 elif form == 'literal-string' and ex.branch_bool(Bool(x == ord('`'))): sp += ['\\', '`']
                 elif ex.branch_bool(Bool(z3.ULT(x, 0x20))):
                     k = ex.concretize_int(c, 'control char'); sp += list('\\u%04x' % k)
-                elif ex.branch_bool(Bool(z3.UGE(x, 0x10000))) and ex.branch_bool(Bool(z3.Extract(0, 0, x) == 1)):
-                    # every other astral character is spelled as a surrogate pair escape (concretised), the rest verbatim
-                    k = ex.concretize_int(Int(z3.Extract(31, 0, x), 'u32'), 'astral', limit=4) if False else None
-                    sp.append(c)
                 else: sp.append(c)
             if form == 'literal-string': sp.append('"')
             sp.append(q)
